@@ -33,6 +33,7 @@ if REPO not in sys.path:
     sys.path.insert(0, REPO)
 
 SUB = 200
+STOP = 330   # the virtual clock is stopped here (timer chains of an open-ended timeline never end by themselves)
 KEYS = {"mod2": lambda x: x % 2, "mod3": lambda x: x % 3, "const": lambda x: 0, "id": lambda x: x,
         "none_or_0": lambda x: None if x % 2 else 0}
 ELEMS = {"-": None, "x10": lambda x: x * 10, "none": lambda x: None}
@@ -85,6 +86,7 @@ def observe_inners(s, o, key_of=None):
                     lambda: rec[2].append((int(s.clock), "C", None)))
     s.schedule_absolute(SUB, lambda *_: o.subscribe(on_inner, lambda e: outer.append((int(s.clock), "E", e)),
                                                     lambda: outer.append((int(s.clock), "C", None)), scheduler=s))
+    s.schedule_absolute(STOP, lambda *_: s.stop())
     return inners, outer
 
 
@@ -92,6 +94,7 @@ def observe_values(s, o):
     out = []
     s.schedule_absolute(SUB, lambda *_: o.subscribe(lambda x: out.append((int(s.clock), "N", x)), lambda e: out.append((int(s.clock), "E", e)),
                                                     lambda: out.append((int(s.clock), "C", None)), scheduler=s))
+    s.schedule_absolute(STOP, lambda *_: s.stop())
     return out
 
 
@@ -261,6 +264,200 @@ def ref_partition(op, tl, par):
 
 
 # ---------------------------------------------------------------------------------------------------------------------
+# windows and buffers (C18)
+
+def run_window(op, tl, par):
+    import reactivex as rx
+    from reactivex import operators as ops
+    from reactivex.testing import TestScheduler
+    s = TestScheduler()
+    src = mk_source(s, tl)
+    buf = op.startswith("buffer")
+    name = op.replace("buffer", "window")
+    if name == "window_with_count":
+        o = src.pipe((ops.buffer_with_count if buf else ops.window_with_count)(par["count"], par.get("skip")))
+    elif name == "window_with_time":
+        o = src.pipe((ops.buffer_with_time if buf else ops.window_with_time)(par["span"], par.get("shift"), scheduler=s))
+    elif name == "window_with_time_or_count":
+        o = src.pipe((ops.buffer_with_time_or_count if buf else ops.window_with_time_or_count)(par["span"], par["count"], scheduler=s))
+    elif name == "window":
+        b = mk_source(s, [(t, "N", 0) for t in par["bounds"]] + ([(par["bend"][0], par["bend"][1], None)] if par.get("bend") else []))
+        o = src.pipe((ops.buffer if buf else ops.window)(b))
+    elif name == "window_when":
+        o = src.pipe((ops.buffer_when if buf else ops.window_when)(lambda: rx.timer(par["every"], scheduler=s)))
+    elif name == "window_toggle":
+        opn = mk_source(s, [(t, "N", d) for (t, d) in par["opens"]])
+        o = src.pipe((ops.buffer_toggle if buf else ops.window_toggle)(opn, lambda d: rx.timer(d, scheduler=s)))
+    else:
+        raise ValueError(op)
+    if buf:
+        out = observe_values(s, o)
+        s.start()
+        return {"buffers": out}
+    inners, outer = observe_inners(s, o)
+    s.start()
+    return {"inners": [(t, k, list(items)) for (t, k, items) in inners], "outer": outer}
+
+
+def ref_window(op, tl, par):
+    """windows as (opened at, [events]); every source element goes to exactly the windows open when it arrives"""
+    buf = op.startswith("buffer")
+    name = op.replace("buffer", "window")
+    wins, outer = [], []      # win: [opened, None, items, open?]
+    events = []               # merged agenda: (time, order, kind, payload); at equal instants source notifications come first
+
+    def open_(t):
+        w = [t, None, [], True]
+        wins.append(w)
+        return w
+
+    def close_(w, t):
+        if w[3]:
+            w[3] = False
+            w[2].append((t, "C", None))
+    src = [(t, k, v) for (t, k, v) in tl if t > SUB]
+    end = None
+    if name == "window_with_count":
+        count, skip = par["count"], par.get("skip") or par["count"]
+        open_(SUB)
+        n = 0
+        for (t, k, v) in src:
+            if k != "N":
+                end = (t, k)
+                break
+            for w in wins:
+                if w[3]:
+                    w[2].append((t, "N", v))
+            c = n - count + 1
+            if c >= 0 and c % skip == 0:
+                close_(wins[c // skip], t)
+            n += 1
+            if n % skip == 0:
+                open_(t)
+    else:
+        # time / boundary driven: build the agenda of boundary events first
+        horizon = (src[-1][0] if src else SUB) + 1
+        last = [e for e in src if e[1] != "N"]
+        stop = last[0][0] if last else None
+        agenda = [(t, 0, k, v) for (t, k, v) in src]
+        if name == "window_with_time":
+            span, shift = par["span"], par.get("shift") or par["span"]
+            k = 0
+            while SUB + k * shift <= (stop if stop is not None else STOP):
+                if k > 0:
+                    agenda.append((SUB + k * shift, 1, "open", None))
+                agenda.append((SUB + k * shift + span, 1, "close", k))
+                k += 1
+        elif name == "window":
+            for t in par["bounds"]:
+                agenda.append((t, 1, "boundary", None))  # the source was created first: its notification of the same instant comes first
+            if par.get("bend"):
+                agenda.append((par["bend"][0], 1, "bend", par["bend"][1]))
+        elif name == "window_toggle":
+            for (t, d) in par["opens"]:
+                agenda.append((t, 1, "topen", d))
+        agenda.sort(key=lambda e: (e[0], e[1]))
+        if name in ("window", "window_when", "window_with_time", "window_with_time_or_count"):
+            open_(SUB)
+        cur_n, timer_due, gen = 0, None, 0
+        if name == "window_when":
+            timer_due = SUB + par["every"]
+        if name == "window_with_time_or_count":
+            timer_due = SUB + par["span"]
+        toggles = []  # (close time, window)
+        i = 0
+        pending = list(agenda)
+        while True:
+            # next event: an agenda entry or an internal timer; at equal instants source notifications come first, then
+            # timers in the order they were set
+            cands = []
+            if pending:
+                cands.append((pending[0][0], pending[0][1], "agenda"))
+            if timer_due is not None:
+                cands.append((timer_due, 2, "timer"))
+            for (tc, w) in toggles:
+                cands.append((tc, 2, "tclose"))
+            if not cands:
+                break
+            cands.sort()
+            t, _o, what = cands[0]
+            if stop is not None and t > stop:
+                break
+            if t >= STOP:
+                break
+            if what == "timer":
+                cur = [w for w in wins if w[3]][-1]
+                close_(cur, t)
+                open_(t)
+                cur_n = 0
+                timer_due = t + (par["every"] if name == "window_when" else par["span"])
+                continue
+            if what == "tclose":
+                tc, w = min(toggles, key=lambda e: e[0])
+                toggles.remove((tc, w))
+                close_(w, tc)
+                continue
+            (t, _o, k, v) = pending.pop(0)
+            if k == "N":
+                for w in wins:
+                    if w[3]:
+                        w[2].append((t, "N", v))
+                if name == "window_with_time_or_count":
+                    cur_n += 1
+                    if cur_n == par["count"]:
+                        cur = [w for w in wins if w[3]][-1]
+                        close_(cur, t)
+                        open_(t)
+                        cur_n = 0
+                        timer_due = t + par["span"]
+            elif k in ("E", "C"):
+                end = (t, k)
+                break
+            elif k == "open":
+                open_(t)
+            elif k == "close":
+                ws = [w for w in wins]
+                if v < len(ws):
+                    close_(ws[v], t)
+            elif k == "boundary":
+                cur = [w for w in wins if w[3]][-1]
+                close_(cur, t)
+                open_(t)
+            elif k == "bend":
+                end = (t, v)
+                break
+            elif k == "topen":
+                w = open_(t)
+                toggles.append((t + v, w))
+    if end is not None:
+        t, k = end
+        for w in wins:
+            if w[3]:
+                w[3] = False
+                w[2].append((t, k, Boom("src") if k == "E" else None))
+        outer.append((t, k, Boom("src") if k == "E" else None))
+    if buf:
+        out = []
+        if end is not None and end[1] == "E":
+            for w in wins:
+                if w[2] and w[2][-1][1] == "C" and w[2][-1][0] <= end[0] and not (w[2][-1][0] == end[0] and False):
+                    pass
+        # a buffer is emitted when its window completes: the list of its elements
+        evs = []
+        for idx, w in enumerate(wins):
+            if w[2] and w[2][-1][1] == "C":
+                items = [e[2] for e in w[2] if e[1] == "N"]
+                if name != "window_with_count" or items:
+                    evs.append((w[2][-1][0], idx, "N", items))
+        evs.sort(key=lambda e: (e[0], e[1]))
+        out = [(t, k, v) for (t, _i, k, v) in evs]
+        if end is not None:
+            out.append((end[0], end[1], Boom("src") if end[1] == "E" else None))
+        return {"buffers": out}
+    return {"inners": [(w[0], None, list(w[2])) for w in wins], "outer": outer}
+
+
+# ---------------------------------------------------------------------------------------------------------------------
 
 def timelines(max_len=3):
     vals = [1, 2, 3, 4]
@@ -297,7 +494,31 @@ OPS = {
                  + [{"key": "mod2", "key_fails": 2}, {"key": "mod3", "elem_fails": 0}], "_groupby.py", "C19"),
     "partition": (run_partition, ref_partition, [{}, {"pred": "falsy"}], "_partition.py", "C19"),
     "partition_indexed": (run_partition, ref_partition, [{}], "_partition.py", "C19"),
+    "window_with_count": (run_window, ref_window, [{"count": c, "skip": k} for c in (1, 2, 3) for k in (None, 1, 2, 3, 4)], "_windowwithcount.py", "C18"),
+    "buffer_with_count": (run_window, ref_window, [{"count": c, "skip": k} for c in (1, 2, 3) for k in (None, 1, 2, 3)], "_buffer.py", "C18"),
+    "window_with_time": (run_window, ref_window, [{"span": a, "shift": b} for a in (10, 15, 25) for b in (None, 10, 15, 25, 40)], "_windowwithtime.py", "C18"),
+    "buffer_with_time": (run_window, ref_window, [{"span": a, "shift": b} for a in (10, 25) for b in (None, 10, 15, 40)], "_bufferwithtime.py", "C18"),
+    "window_with_time_or_count": (run_window, ref_window, [{"span": a, "count": c} for a in (15, 25, 40) for c in (1, 2, 3)], "_windowwithtimeorcount.py", "C18"),
+    "buffer_with_time_or_count": (run_window, ref_window, [{"span": a, "count": c} for a in (15, 25) for c in (1, 2)], "_bufferwithtimeorcount.py", "C18"),
+    "window": (run_window, ref_window, [{"bounds": b, "bend": e} for b in ([], [215], [215, 225], [210, 230], [205, 215, 235])
+                                        for e in (None, [225, "C"], [225, "E"])], "_window.py", "C18"),
+    "buffer": (run_window, ref_window, [{"bounds": b, "bend": None} for b in ([], [215], [215, 225], [205, 215, 235])], "_buffer.py", "C18"),
+    "window_when": (run_window, ref_window, [{"every": d} for d in (5, 15, 25, 100)], "_window.py", "C18"),
+    "buffer_when": (run_window, ref_window, [{"every": d} for d in (15, 25)], "_buffer.py", "C18"),
+    "window_toggle": (run_window, ref_window, [{"opens": o} for o in ([], [[205, 10]], [[205, 30], [215, 10]], [[215, 5], [225, 30]], [[205, 100], [206, 100]])], "_window.py", "C18"),
+    "buffer_toggle": (run_window, ref_window, [{"opens": o} for o in ([[205, 30], [215, 10]], [[215, 5], [225, 30]])], "_buffer.py", "C18"),
 }
+
+
+def cut(r):
+    """only what happens before the clock is stopped counts"""
+    out = dict(r)
+    if "inners" in out:
+        out["inners"] = [(t, k, [e for e in items if e[0] < STOP]) for (t, k, items) in out["inners"] if t < STOP]
+    for key in ("outer", "buffers", "true", "false"):
+        if key in out:
+            out[key] = [e for e in out[key] if e[0] < STOP]
+    return out
 
 
 def check(op, tl, par):
@@ -307,6 +528,7 @@ def check(op, tl, par):
     except Exception as e:  # noqa: BLE001
         return {"what": f"escaped: {type(e).__name__}: {e}"}
     want = ref(op, tl, par)
+    got, want = cut(got), cut(want)
     if json.dumps(got, default=repr, sort_keys=True) != json.dumps(want, default=repr, sort_keys=True):
         return {"what": "differs from the reference", "got": got, "expected": want}
     return None
@@ -324,7 +546,25 @@ sys.exit(r.returncode)
 '''
 
 
+def classify(tl):
+    ends = [k for (_t, k, _v) in tl if k != "N"]
+    return {"C": "source-completes", "E": "source-errors"}.get(ends[0] if ends else None, "open-end")
+
+
 def main(argv):
+    if argv[0] == "list":
+        # every disagreement of one operator, one JSON line each (with the class of its timeline)
+        op = argv[1]
+        opts = json.loads(argv[2]) if len(argv) > 2 else {}
+        n = 0
+        for par in OPS[op][2]:
+            for tl in timelines(min(opts.get("max_len", 2), 3)):
+                n += 1
+                r = check(op, tl, par)
+                if r:
+                    print(json.dumps({"class": classify(tl), "case": {"op": op, "par": par, "timeline": [list(e) for e in tl]}, "disagreement": r}, default=repr))
+        print(json.dumps({"cases": n}))
+        return
     if argv[0] == "case":
         c = json.loads(argv[1])
         r = check(c["op"], [tuple(e) for e in c["timeline"]], c["par"])
@@ -342,6 +582,8 @@ def main(argv):
     import time
     t_end = time.time() + min(float(opts.get("budget_s", 600)), 600)
     tls = timelines(min(opts.get("max_len", 3), 3))
+    if opts.get("class"):
+        tls = [tl for tl in tls if classify(tl) == opts["class"]]
     for op in order:
         for par in OPS[op][2]:
             if time.time() > t_end:
